@@ -116,16 +116,16 @@ claim("C21", "AST path rules + literal-argument rule backed by MIR effect, verif
 claim("C22", "AST path enumeration of bookkeeping pairings + must-pass-through of the lease refresh",
       "Only the bookkeeping pairings without which the property fails on every schedule: one count per acknowledged append before the rollover test, the sealed count proposed is the "
       "tracked count of that very segment, the reader's per-segment counter moves exactly with returned entries, every path of forward_append refreshes the leases before it appends, and the lease test and the engine append form one critical section (known finding, shared with C23.1: they do not; two concurrent PUTs at a threshold of 1 lose the second). The other interleaving clauses (duplicate rollovers, monitor timing) "
-      "are explicitly not decided.", note=AST_NOTE, engine="ast", design="4/C22")
+      "are explicitly not decided. Also decided: a failed (forwarded) read is never treated as an empty read, and whether a sealing names the segment it seals (known finding: it does not; two overlapping producers seal the next segment with the old count).", note=AST_NOTE, engine="ast", design="4/C22")
 claim("C23", "AST structural check of the lease/write critical section + who-may-call",
       "Decides whether the lease test and the engine append form one critical section with respect to lease updates (two accepted idioms; known finding: check-then-lock-then-write), that "
-      "every engine write goes through append_by_key under the bucket guard, and that every path of forward_append to the append has refreshed the leases first.", note=AST_NOTE, engine="ast", design="4/C23")
+      "every engine write goes through append_by_key under the bucket guard, and that every path of forward_append to the append has refreshed the leases first. Also decides that Storage::update_leases makes the lease set exactly the expected set (untouched only under set equality; otherwise unexpected leases dropped and every expected one added), and that the set handed to the bucket is not computed before an await (known finding).", note=AST_NOTE, engine="ast", design="4/C23")
 claim("C24", "AST path enumeration of the frame loop + syntax-tree panic-site enumeration with typed discharge",
       "Enumerates every acyclic path of one iteration of the frame loop: body consumed or connection closed, exactly one response per frame, payload pass-through in the command parser; and no function of client.rs reachable from the frame loop, nor any NodeController method reachable from the calls it makes on the controller, contains an undischarged panic site (a str cut at a byte position, unbounded index, unwrap/expect, panic macros), since a panic of the connection task leaves that frame and all later ones unanswered. "
       "Holds for every byte stream because each path is covered; panics inside Storage / Metadata / octopii methods called from the controller are not followed.", note=AST_NOTE, engine="ast", design="4/C24")
 claim("C25", "MIR (stub harness) codec obligations + written lemma",
       "Codec obligations on the MIR of wal_key / parse_wal_key (template bytes, argument order/types, resolved str methods with their literals, the symbolic expression of the result) "
-      "plus the lemma in the evidence give parse(wal_key(t, s)) = (t, s) for all strings and all u64, hence injectivity.", design="4/C25",
+      "plus the lemma in the evidence give parse(wal_key(t, s)) = (t, s) for all strings and all u64, hence injectivity. A who-may-use rule over the sources of the distributed layer shows that no other function builds or splits keys with the separator's text, so the lemma covers every encoder and decoder.", design="4/C25",
       note=MIR_NOTE + " controller/types.rs is type-checked through harness/dwshim.")
 
 ALL = ["C%02d" % i for i in range(1, 26)]
